@@ -31,8 +31,10 @@ CLAIMED = {
     'C13': ('proof', 'literal kernel: must-escape byte classes for all 256 bytes, quote choice, hex/binary literal values for all 64-bit digits and '
                      'all 32-bit exponents; the escape reader only on enumerated inputs (symbolic input is out of reach, measured); '
                      'escape(), write_quoted, write_number, decimal parsing are out of reach (format!/float formatting)'),
-    'C14': ('other', 'key-quoting kernel only, bounded: is_valid_identifier(s) ==> s is a Lua Name and not reserved; reserved words rejected. '
-                     'Serializer and literal writers not covered'),
+    'C14': ('proof', 'key-quoting + scalar kernel: every integer / float handed to the serde Serializer becomes a number expression holding the '
+                     'nearest double, booleans and null are kept (proved for all values); is_valid_identifier(s) ==> s is a Lua Name and not '
+                     'reserved (bounded); byte classes of the string writer shared with C13. Sequences, map entries and the literal '
+                     'writers are measured out of reach'),
     'C18': ('other', 'bounded: trivia filters (clear_comments, clear_whitespaces, filter_comments) keep the code token and select exactly the '
                      'right trivia; line-comment detection equals the long-bracket rule; the writer always breaks the line after a line comment '
                      'before code. append_text_comment::text, the regex filter and the remove_spaces visitor are not covered'),
@@ -60,8 +62,32 @@ NOT_APPLICABLE = {
 PENDING = 'check not built yet in this session; see DESIGN.md section 4 for the plan'
 
 
+def levels_from_contracts():
+    """level 'proof' iff the property has at least one unbounded obligation (Kani kind=proof or a Verus item)"""
+    import re
+    import sys
+    sys.path.insert(0, os.path.join(VERIF, 'tools'))
+    import weave
+    import extract
+    lv = {}
+    for u in weave.load_units(os.path.join(VERIF, 'contracts')):
+        for h in u.harnesses:
+            for p in h.props:
+                if h.kind == 'proof':
+                    lv[p] = 'proof'
+                else:
+                    lv.setdefault(p, 'other')
+    for it in extract.ITEMS:
+        for p in it.get('props', []):
+            lv[p] = 'proof'
+    return lv
+
+
 def main():
     props = [json.loads(l) for l in open(os.path.join(VERIF, 'properties.jsonl'))]
+    lv = levels_from_contracts()
+    for pid in list(CLAIMED):
+        CLAIMED[pid] = (lv.get(pid, CLAIMED[pid][0]), CLAIMED[pid][1])
     m = {
         'version': 1,
         'setup_cmd': 'true',
